@@ -468,6 +468,9 @@ type vfC09Sys struct {
 	handlers map[string]http.HandlerFunc
 	dir      string
 	clock    atomic.Uint32
+	// afterClockRead, if set, is run once by the next reader of the clock
+	// after it has taken its reading.
+	afterClockRead atomic.Pointer[func()]
 }
 
 func vfC09NewSys(startHour uint32) (x *vfC09Sys, err error) {
@@ -490,8 +493,17 @@ func (x *vfC09Sys) open(limit time.Duration, enabled bool) (err error) {
 	}
 	x.handlers = map[string]http.HandlerFunc{}
 	x.s, err = New(Config{
-		Logger:            slogutil.NewDiscardLogger(),
-		UnitID:            func() (id uint32) { return x.clock.Load() },
+		Logger: slogutil.NewDiscardLogger(),
+		UnitID: func() (id uint32) {
+			id = x.clock.Load()
+			if h := x.afterClockRead.Swap(nil); h != nil {
+				// the harness owns the schedule here: the caller has read the
+				// hour and is held before it goes on
+				(*h)()
+			}
+
+			return id
+		},
 		ConfigModified:    func() {},
 		ShouldCountClient: func([]string) (ok bool) { return true },
 		HTTPRegister: func(method, url string, h http.HandlerFunc) {
